@@ -43,5 +43,4 @@ Reps == {ClassOf(b) : b \in Byte}
 \* A structural sub-alphabet for the longer exhaustive runs.
 StructReps == {32, 34, 92, 45, 46, 48, 49, 44, 58, 91, 93, 123, 125, 101, 116, 33}
 
-Str(s) == s   \* documentation helper: sequences of bytes are plain TLA+ sequences
 =============================================================================
